@@ -13,7 +13,7 @@ ASSUMPTIONS = ['engines other than SQLite are not executed: their lexical rules 
 SYMS = ["'", '"', '\\', '\n', '\t', '%', '{', '}', '$', '#', '/*', '*/', '--', ';', 'é', 'a']
 WORDS = ['%s', '{0}', '${f}', "''", "\\'", '%(x)s', '{}', '\\n', ' ', "';--", '";', "\\\\'"]
 FLAG_F = 'Vf'
-POSITIONS = ['fact', 'list', 'record', 'concat', 'flag_default', 'user_flag', 'grounded']
+POSITIONS = ['fact', 'list', 'record', 'concat', 'flag_default', 'user_flag', 'grounded', 'nested', 'body_eq', 'body_in', 'call_arg']
 
 
 def strings(maxlen):
@@ -21,6 +21,8 @@ def strings(maxlen):
   for n in range(1, maxlen + 1):
     for t in itertools.product(SYMS, repeat=n): out.append(''.join(t))
   out += WORDS
+  out += [a + b for a in WORDS for b in WORDS if a != b and '${f}' not in (a, b)][::3]
+  out += ["it's a \"test\" \\ 100% {ok} {0} %s # -- /* */ ;\n\t \u00e9 \\' end", "x" * 300 + "'" + "y" * 300, "'" * 9, '\\' * 7, "a'b\"c'd\"e\\f\ng\th%i{j}k$l#m/*n*/o--p;q", "'; DROP TABLE t; --", '\\\\\'\\\'']
   out += [w + s for w in ('${f}', '%s') for s in ("'", '"', '\\', 'a')] + [s + '${f}' for s in ("'", '"', '\\')]
   seen = set(); res = []
   for s in out:
@@ -56,9 +58,14 @@ def program(dialect, position, items):
     elif position == 'record': lines.append('T(%d, {fld: %s, n: 1});' % (i, lit))
     elif position == 'concat': lines.append('T(%d, "<" ++ %s ++ ">");' % (i, lit))
     elif position == 'grounded': lines.append('G(%d, %s);' % (i, lit))
+    elif position == 'nested': lines.append('T(%d, {a: [{b: %s, c: [%s, "y"]}], n: 2});' % (i, lit, lit))
+    elif position == 'body_eq': lines.append('T(%d, s) :- s == %s;' % (i, lit))
+    elif position == 'body_in': lines.append('T(%d, s) :- s in ["z", %s];' % (i, lit))
+    elif position == 'call_arg': lines.append('T(%d, Idf(%s));' % (i, lit))
     elif position == 'flag_default':
       lines.append('@DefineFlag("fl%d", %s);' % (i, lit)); lines.append('T(%d, FlagValue("fl%d"));' % (i, i))
   if position == 'grounded': lines += ['@Ground(G);', 'T(i, s) :- G(i, s);']
+  if position == 'call_arg': lines += ['Idf(x) = x;']
   return '\n'.join(lines) + '\n'
 
 
@@ -79,6 +86,7 @@ def sqlite_value(position, s):
   if position == 'list': return LV([e, 'z'])
   if position == 'record': return RV((('fld', e), ('n', 1)))
   if position == 'concat': return '<' + e + '>'
+  if position == 'nested': return RV((('a', LV([RV((('b', e), ('c', LV([e, 'y']))))])), ('n', 2)))
   return e
 
 
@@ -156,7 +164,7 @@ def check_one(dialect, position, meta, out, text, stats, bad, outcomes, ref_cach
     db = impl.Db({}); got = db.run(out); db.close(); stats['executions'] += 1
     if got[0] != 'rows':
       bad('sqlite-sql-error/%s' % position, 'emitted SQL does not run: %s' % got[1], text); return
-    rows = {r[got[1].index('col0')]: norm_got(r[got[1].index('col1')]) if position in ('list', 'record') else r[got[1].index('col1')] for r in got[2]}
+    rows = {r[got[1].index('col0')]: norm_got(r[got[1].index('col1')]) if position in ('list', 'record', 'nested') else r[got[1].index('col1')] for r in got[2] if position != 'body_in' or r[got[1].index('col1')] != 'z'}
     for k, s in meta:
       stats['comparisons'] += 1
       exp = sqlite_value(position, s)
